@@ -198,6 +198,14 @@ def materialise(spec, path):
                 if kind == "iso" and spec.get("multVariant"):
                     nm["efiss"] = nm["efiss"] * 2.0 * spec["multVariant"]
                     nm["ecapt"] = nm["ecapt"] * 0.5 / spec["multVariant"]
+                if kind == "iso":
+                    # energy-per-reaction constants of exactly 0.0 next to non-zero cross sections (as for CM247, HF174.. in
+                    # armi/tests/ISOAA)
+                    j = idx.index(i)
+                    if j in {int(z) % len(idx) for z in spec.get("zeroEcapt", [])}:
+                        nm["ecapt"] = 0.0
+                    if j in {int(z) % len(idx) for z in spec.get("zeroEfiss", [])}:
+                        nm["efiss"] = 0.0
                 lib[label] = n
         else:
             smeta = src.pmatrxMetadata
